@@ -363,6 +363,10 @@ def run(ctx):
                 if idx != ref_idx or not wn_ok:
                     mism.append({"variant": name, "w": w, "zeta": z, "impl_idx": idx, "model_idx": ref_idx,
                                  "impl_w": (wnew or [None])[0], "model_w": m["wnew"]})
+                    # the Lean comb is the serial comb of the property (its clauses are theorems): a different index vector at a
+                    # concrete (weights, offset) is a concrete failing input
+                    spec_fail.append((name, "performs exactly the serial comb at its offset (all implementations agree)",
+                                      {"w": w, "zeta": z, "selected": idx, "serial_comb": ref_idx, "weight": (wnew or [None])[0], "serial_weight": m["wnew"]}))
     # MPI: model run with the observed schedule
     if model is not None:
         for j, (w, z, name, (idx, wnew), ev) in enumerate(mpi_ref):
